@@ -62,7 +62,7 @@ def generate(rng, tier, boost):
     cases = []
 
     def add(ssig, spk):
-        cases.append((701, [ssig, spk, rf(rng), rng.randrange(12)]))
+        cases.append((701, [ssig, spk, rf(rng), rng.randrange(16)]))
     for _ in range(30000 if big else 1500):
         r = rng.random()
         if r < 0.35:
@@ -106,7 +106,7 @@ def generate(rng, tier, boost):
     # VERIFY variant failing before them; PICK / ROLL after popping the index; multi-item appends
     # at 997..1000 items (1000 + 3 attained); failures after a CODESEPARATOR
     def addf(ssig, spk, f):
-        cases.append((701, [ssig, spk, f, rng.randrange(12)]))
+        cases.append((701, [ssig, spk, f, rng.randrange(16)]))
     for nk in (0, 1, 3, 19, 20):
         keys = b''.join(G.push(b'k' + bytes([k])) for k in range(nk))
         for nops in (179, 180, 181, 199, 200, 201):
@@ -137,25 +137,25 @@ def generate(rng, tier, boost):
     pk = b'\x02' + bytes(range(1, 33))
     for ht in (0, 1, 2, 3, 0x22, 0x23, 0x43, 0x63, 0x81, 0x82, 0x83, 0xa3, 0xc3, 0xe3, 0xff):
         sig = rbytes(rng, rng.choice([9, 40, 71, 72])) + bytes([ht])
-        for mode in range(12):
+        for mode in range(16):
             cases.append((701, [G.push(sig), G.push(pk) + b'\xac', rf(rng), mode]))
-        cases.append((701, [b'\x00' + G.push(sig), b'\x51' + G.push(pk) + b'\x51\xae', rf(rng), rng.choice([1, 7, 9])]))
-        cases.append((701, [G.push(sig) + G.push(pk), b'\x76\xa9' + G.push(h160(pk)) + b'\x88\xac', rf(rng), rng.choice([1, 7, 9])]))
+        cases.append((701, [b'\x00' + G.push(sig), b'\x51' + G.push(pk) + b'\x51\xae', rf(rng), rng.choice([1, 5, 9, 11, 13])]))
+        cases.append((701, [G.push(sig) + G.push(pk), b'\x76\xa9' + G.push(h160(pk)) + b'\x88\xac', rf(rng), rng.choice([1, 5, 9, 11, 13])]))
     # signature operands that are not signatures: one to four bytes, beginning like a DER sequence or not,
     # under every base hash type, against a valid and an undecodable key, single and multi
     for sig in (b'\x30', b'\x30\x01', b'\x30\x83', b'\x30\x00\x01', b'\x30\x06\x02\x01', b'\x00', b'\x01', b'\xff\xff',
                 b'\x30\x02\x02\x00\x01', b'\x30\x45' + b'\x02' * 8 + b'\x01'):
         for key in (pk, b'\x02' + b'\xff' * 32, b'', b'\x04' + b'\x01' * 10, b'\x04' + b'\x02' * 65, b'\x02' * 100, b'\x03' * 520):
-            cases.append((701, [G.push(sig), G.push(key) + b'\xac', rf(rng), rng.randrange(12)]))
-            cases.append((701, [b'\x00' + G.push(sig), b'\x51' + G.push(key) + b'\x51\xae', rf(rng), rng.randrange(12)]))
-            cases.append((701, [G.push(sig) + G.push(key), b'\x76\xa9' + G.push(h160(key)) + b'\x88\xad\x51', rf(rng), rng.randrange(12)]))
+            cases.append((701, [G.push(sig), G.push(key) + b'\xac', rf(rng), rng.randrange(16)]))
+            cases.append((701, [b'\x00' + G.push(sig), b'\x51' + G.push(key) + b'\x51\xae', rf(rng), rng.randrange(16)]))
+            cases.append((701, [G.push(sig) + G.push(key), b'\x76\xa9' + G.push(h160(key)) + b'\x88\xad\x51', rf(rng), rng.randrange(16)]))
     # over-long signature operands (74, 75, 100, 255, 520 bytes) for CHECKSIG and in every slot of CHECKMULTISIG
     for n in (73, 74, 75, 100, 255, 520):
         sig = b'\x30' + rbytes(rng, n - 2) + b'\x01'
-        cases.append((701, [G.push(sig), G.push(pk) + b'\xac', rf(rng), rng.randrange(12)]))
-        cases.append((701, [b'\x00' + G.push(sig), b'\x51' + G.push(pk) + b'\x51\xae', rf(rng), rng.randrange(12)]))
-        cases.append((701, [b'\x00' + G.push(sig) + G.push(sig[:60]), b'\x52' + G.push(pk) + G.push(pk) + G.push(b'\x03' + pk[1:]) + b'\x53\xaf\x51', rf(rng), rng.randrange(12)]))
-        cases.append((701, [b'\x00' + G.push(sig[:60]) + G.push(sig), b'\x52' + G.push(pk) + G.push(pk) + b'\x52\xae', rf(rng), rng.randrange(12)]))
+        cases.append((701, [G.push(sig), G.push(pk) + b'\xac', rf(rng), rng.randrange(16)]))
+        cases.append((701, [b'\x00' + G.push(sig), b'\x51' + G.push(pk) + b'\x51\xae', rf(rng), rng.randrange(16)]))
+        cases.append((701, [b'\x00' + G.push(sig) + G.push(sig[:60]), b'\x52' + G.push(pk) + G.push(pk) + G.push(b'\x03' + pk[1:]) + b'\x53\xaf\x51', rf(rng), rng.randrange(16)]))
+        cases.append((701, [b'\x00' + G.push(sig[:60]) + G.push(sig), b'\x52' + G.push(pk) + G.push(pk) + b'\x52\xae', rf(rng), rng.randrange(16)]))
     # CHECKMULTISIG / CHECKMULTISIGVERIFY with key and signature counts outside 0..20 on shallow and deep stacks
     for cnt in (-1, -2, -3, -4, -21, -128, 21, 22, 100, 255, 2 ** 31 - 1, -(2 ** 31) + 1):
         for depth in (0, 1, 2, 3, 5, 25):
